@@ -504,3 +504,408 @@ Qed.
 
 Theorem inva_reachable ops s : reachable ops s -> InvA s.
 Proof. induction 1; [apply inva_init|apply inva_step; assumption]. Qed.
+
+(* ---------- what a step does to everything except the closure counters ---------- *)
+Definition pc_after (t : nat) (a : after) : pc :=
+  match a with AClient prog => next_client t prog | ADtor => CDone | AWorker true => WExit | AWorker false => WIdle end.
+Definition job_pc (b : body) : pc := match b with BNone => WIdle | BSub k l => WSub l k | BStop => WStop end.
+
+Lemma stop_end_shell s t q a : forall s', s' = fst (stop_end s t q a) ->
+  queue s' = (match a with ADtor => [] | _ => queue s end) /\ exit_ s' = exit_ s /\ threads s' = threads s /\
+  tokens s' = tokens s /\ destroyed s' = (match a with ADtor => true | _ => destroyed s end) /\
+  nclients s' = nclients s /\ thrs s' = set_nth (thrs s) t (pc_after t a) /\
+  (forall c, G cb BNone s' c = G cb BNone s c) /\ (forall c, G cran 0 s' c = G cran 0 s c) /\
+  (forall c, G cran_on 0 s' c = G cran_on 0 s c).
+Proof.
+  intros s' ->. unfold stop_end. pose proof (drop_all_rel t s q) as D.
+  destruct (drop_all t s q) as [s1 e]. cbn [fst] in D.
+  destruct D as [h r o w b d cc]. destruct h as (hq & he & ht & hk & hd & hn & hth & hl).
+  assert (SIMPLE : forall p, queue (with_thr s1 t p) = queue s /\ exit_ (with_thr s1 t p) = exit_ s /\
+     threads (with_thr s1 t p) = threads s /\ tokens (with_thr s1 t p) = tokens s /\
+     destroyed (with_thr s1 t p) = destroyed s /\ nclients (with_thr s1 t p) = nclients s /\
+     thrs (with_thr s1 t p) = set_nth (thrs s) t p /\
+     (forall c, G cb BNone (with_thr s1 t p) c = G cb BNone s c) /\
+     (forall c, G cran 0 (with_thr s1 t p) c = G cran 0 s c) /\
+     (forall c, G cran_on 0 (with_thr s1 t p) c = G cran_on 0 s c)).
+  { intros p. unfold with_thr. cbn [queue exit_ threads tokens destroyed nclients thrs]. rewrite hth.
+    repeat split; auto. }
+  destruct a as [prog| |[|]].
+  - cbn [fst pc_after]. apply SIMPLE.
+  - pose proof (drop_all_rel t s1 (queue s1)) as D2.
+    destruct (drop_all t s1 (queue s1)) as [s2 e2]. cbn [fst] in D2.
+    destruct D2 as [h2 r2 o2 w2 b2 d2 cc2]. destruct h2 as (hq2 & he2 & ht2 & hk2 & hd2 & hn2 & hth2 & hl2).
+    cbn [fst pc_after]. unfold with_thr. cbn [queue exit_ threads tokens destroyed nclients thrs].
+    rewrite hth2, hth. repeat split; try congruence.
+    + intros c. unfold G at 1. cbn [clos]. fold (G cb BNone s2 c). rewrite b2. apply b.
+    + intros c. unfold G at 1. cbn [clos]. fold (G cran 0 s2 c). rewrite r2. apply r.
+    + intros c. unfold G at 1. cbn [clos]. fold (G cran_on 0 s2 c). rewrite o2. apply o.
+  - cbn [fst pc_after]. apply SIMPLE.
+  - cbn [fst pc_after]. apply SIMPLE.
+Qed.
+
+Lemma enqueue_shell s t l k b : forall s', s' = fst (enqueue s t l k b) ->
+  queue s' = (if exit_ s then queue s else queue s ++ [length (clos s)]) /\ exit_ s' = exit_ s /\ threads s' = threads s /\
+  tokens s' = (if exit_ s then tokens s else if Nat.ltb (tokens s) (sleepers s) then S (tokens s) else tokens s) /\
+  destroyed s' = destroyed s /\ nclients s' = nclients s /\ thrs s' = thrs s /\
+  (forall c, G cb BNone s' c = if Nat.eqb c (length (clos s)) then b else G cb BNone s c) /\
+  (forall c, G cran 0 s' c = if Nat.eqb c (length (clos s)) then 0 else G cran 0 s c) /\
+  (forall c, G cran_on 0 s' c = if Nat.eqb c (length (clos s)) then 0 else G cran_on 0 s c).
+Proof.
+  intros s' ->. unfold enqueue.
+  set (s1 := with_clos s (clos s ++ [mkClo l k b 0 0 0 0])).
+  destruct (exit_ s) eqn:EX.
+  - pose proof (drop1_rel t s1 [] (length (clos s))) as D.
+    destruct D as [h r o w bb d cc]. destruct h as (hq & he & ht & hk & hd & hn & hth & hl).
+    rewrite hq, he, ht, hk, hd, hn, hth. unfold s1 at 1 2 3 4 5 6 7. cbn [with_clos queue exit_ threads tokens destroyed nclients thrs].
+    repeat split; auto; intros c; [rewrite bb|rewrite r|rewrite o]; unfold s1; rewrite G_app; reflexivity.
+  - cbn [fst]. unfold with_tokens, with_queue. cbn [queue exit_ threads tokens destroyed nclients thrs].
+    repeat split; auto; intros c; unfold G at 1; cbn [clos];
+      [fold (G cb BNone s1 c)|fold (G cran 0 s1 c)|fold (G cran_on 0 s1 c)]; unfold s1; rewrite G_app; reflexivity.
+Qed.
+
+Definition is_client (p : pc) : bool :=
+  match p with
+  | CAt _ | CXWait | CDtor | CDone => true
+  | Join _ _ (AClient _) | Join _ _ ADtor => true
+  | _ => false
+  end.
+
+Record InvB (s : st) : Prop := {
+  b_exit : exit_ s = true -> queue s = [] /\ threads s = [];
+  b_destr : destroyed s = true -> exit_ s = true;
+  b_ncl : 0 < nclients s <= length (thrs s);
+  b_class : forall i p, T s i = Some p -> (is_client p = true <-> i < nclients s);
+  b_done0 : T s 0 = Some CDone -> destroyed s = true;
+  b_ran : forall c, 1 <= G cran 0 s c -> nclients s <= G cran_on 0 s c < length (thrs s);
+  b_join : forall i l q a, T s i = Some (Join l q a) -> exit_ s = true
+}.
+
+Lemma invb_frame s s' i p old : InvB s -> T s i = Some old ->
+  thrs s' = set_nth (thrs s) i p -> nclients s' = nclients s -> is_client p = is_client old ->
+  (exit_ s' = true -> queue s' = [] /\ threads s' = []) ->
+  (destroyed s' = true -> exit_ s' = true) ->
+  (i = 0 -> p = CDone -> destroyed s' = true) -> (destroyed s = true -> destroyed s' = true) ->
+  (forall c, 1 <= G cran 0 s' c -> nclients s <= G cran_on 0 s' c < length (thrs s)) ->
+  (exit_ s = true -> exit_ s' = true) -> (forall l q a, p = Join l q a -> exit_ s' = true) ->
+  InvB s'.
+Proof.
+  intros [B1 B2 B3 B4 B5 B6 B7] H Et En Ec X1 X2 X3 X4 X5 X6 X7.
+  pose proof (T_lt s i old H) as L.
+  assert (TT : forall j, T s' j = if Nat.eqb i j then Some p else T s j).
+  { intros j. unfold T. rewrite Et. destruct (Nat.eqb_spec i j) as [E|E].
+    - subst. apply nth_error_set_nth_same. exact L.
+    - apply nth_error_set_nth_other. exact E. }
+  constructor; auto.
+  - rewrite En, Et, set_nth_length. exact B3.
+  - intros j pj. rewrite TT, En. destruct (Nat.eqb_spec i j) as [E|E].
+    + intros Q. inversion Q; subst. rewrite Ec. apply B4. exact H.
+    + apply B4.
+  - rewrite TT. destruct (Nat.eqb_spec i 0) as [E|E].
+    + intros Q. inversion Q. apply X3; auto.
+    + intros Q. apply X4, B5, Q.
+  - intros c Hc. rewrite En, Et, set_nth_length. apply X5, Hc.
+  - intros j l q a. rewrite TT. destruct (Nat.eqb_spec i j) as [E|E].
+    + intros Q. inversion Q. eapply X7; eauto.
+    + intros Q. eapply X6, B7, Q.
+Qed.
+
+Lemma next_client_client i r : is_client (next_client i r) = true.
+Proof. unfold next_client. destruct r; [destruct (Nat.eqb i 0)|]; reflexivity. Qed.
+Lemma next_client_notdone0 r : next_client 0 r <> CDone.
+Proof. unfold next_client. destruct r; cbn; discriminate. Qed.
+
+Lemma invb_stop_mark s i a old : InvB s -> T s i = Some old ->
+  is_client old = match a with AWorker _ => false | _ => true end ->
+  InvB (fst (stop_mark s i a)).
+Proof.
+  intros B H Ec. unfold stop_mark.
+  set (s1 := mkSt [] true [] (sleepers s) (destroyed s) (nclients s) (clos s) (thrs s)).
+  set (a' := match a with AWorker _ => AWorker (existsb (Nat.eqb i) (threads s)) | _ => a end).
+  assert (Ec' : is_client (pc_after i a') = is_client old).
+  { rewrite Ec. unfold a'. destruct a as [r| |d]; cbn [pc_after]; [apply next_client_client|reflexivity|].
+    destruct (existsb (Nat.eqb i) (threads s)); reflexivity. }
+  destruct (filter (fun w => negb (Nat.eqb w i)) (threads s)) as [|w l] eqn:F.
+  - pose proof (stop_end_shell s1 i (queue s) a' _ eq_refl) as (hq & he & ht & hk & hd & hn & hth & hb & hr & ho).
+    apply (invb_frame s _ i (pc_after i a') old B H).
+    + exact hth.
+    + exact hn.
+    + exact Ec'.
+    + intros _. rewrite hq, ht. unfold s1. cbn [queue threads]. destruct a'; auto.
+    + intros _. rewrite he. reflexivity.
+    + intros -> Q. rewrite hd. unfold a' in *. destruct a as [r| |d]; cbn [pc_after] in Q.
+      * exfalso. eapply next_client_notdone0, Q.
+      * reflexivity.
+      * destruct (existsb (Nat.eqb 0) (threads s)); discriminate.
+    + intros D. rewrite hd. destruct a'; auto.
+    + intros c. rewrite hr, ho. apply (b_ran s B).
+    + intros _. rewrite he. reflexivity.
+    + intros. rewrite he. reflexivity.
+  - cbn [fst]. apply (invb_frame s _ i (Join (w :: l) (queue s) a') old B H).
+    + reflexivity.
+    + reflexivity.
+    + rewrite Ec. unfold a'. destruct a; reflexivity.
+    + intros _. split; reflexivity.
+    + reflexivity.
+    + intros; discriminate.
+    + auto.
+    + apply (b_ran s B).
+    + reflexivity.
+    + reflexivity.
+Qed.
+
+Lemma invb_enqueue s i l k b p old : InvB s -> T s i = Some old -> is_client p = is_client old ->
+  (i = 0 -> p <> CDone) -> (forall l q a, p <> Join l q a) ->
+  InvB (with_thr (fst (enqueue s i l k b)) i p).
+Proof.
+  intros B H Ec N0 NJ.
+  pose proof (enqueue_shell s i l k b _ eq_refl) as (hq & he & ht & hk & hd & hn & hth & hb & hr & ho).
+  apply (invb_frame s _ i p old B H); unfold with_thr; cbn [queue exit_ threads tokens destroyed nclients thrs].
+  - rewrite hth. reflexivity.
+  - exact hn.
+  - exact Ec.
+  - rewrite he, hq, ht. intros X. rewrite X. apply (b_exit s B X).
+  - rewrite he, hd. apply (b_destr s B).
+  - intros E Q. exfalso. apply (N0 E Q).
+  - rewrite hd. auto.
+  - intros c. unfold G. cbn [clos]. fold (G cran 0 (fst (enqueue s i l k b)) c) (G cran_on 0 (fst (enqueue s i l k b)) c).
+    rewrite hr, ho. destruct (Nat.eqb c (length (clos s))); [lia|apply (b_ran s B)].
+  - rewrite he. auto.
+  - intros l0 q0 a0 Q. exfalso. eapply NJ, Q.
+Qed.
+
+Lemma invb_worker_cs s s' w old : InvB s -> T s w = Some old -> is_client old = false ->
+  clos s' = clos s -> queue s' = queue s -> thrs s' = thrs s -> exit_ s' = exit_ s -> threads s' = threads s ->
+  destroyed s' = destroyed s -> nclients s' = nclients s ->
+  InvB (fst (worker_cs s' w)).
+Proof.
+  intros B H Ec Ecl Eq Et Ee Eth Ed En.
+  assert (WN : nclients s <= w < length (thrs s)).
+  { pose proof (T_lt s w old H). pose proof (b_class s B w old H) as [X Y].
+    split; [|assumption]. destruct (Nat.ltb_spec w (nclients s)); [|assumption]. rewrite (Y H1) in Ec. discriminate. }
+  assert (NZ : w = 0 -> False) by (pose proof (b_ncl s B); lia).
+  assert (GEN : forall p s2, is_client p = false -> (forall l q a, p <> Join l q a) ->
+            thrs s2 = thrs s' -> nclients s2 = nclients s' -> queue s2 = [] \/ exit_ s' = false -> threads s2 = threads s' ->
+            exit_ s2 = exit_ s' -> destroyed s2 = destroyed s' ->
+            (forall c, 1 <= G cran 0 s2 c -> nclients s <= G cran_on 0 s2 c < length (thrs s)) ->
+            InvB (with_thr s2 w p)).
+  { intros p s2 Pc NJ E1 E2 E3 E4 E5 E6 E7.
+    apply (invb_frame s _ w p old B H); unfold with_thr; cbn [queue exit_ threads tokens destroyed nclients thrs].
+    - rewrite E1, Et. reflexivity.
+    - congruence.
+    - congruence.
+    - rewrite E5, E4, Eth. intros X. destruct E3 as [E3|E3]; [|congruence]. split; [exact E3|].
+      apply (b_exit s B). congruence.
+    - rewrite E6, E5, Ed, Ee. apply (b_destr s B).
+    - intros E. exfalso. auto.
+    - rewrite E6, Ed. auto.
+    - intros c. unfold G. cbn [clos]. apply E7.
+    - rewrite E5, Ee. auto.
+    - intros l q a Q. exfalso. eapply NJ, Q. }
+  assert (RAN : forall c, 1 <= G cran 0 s' c -> nclients s <= G cran_on 0 s' c < length (thrs s)).
+  { intros c. unfold G. rewrite Ecl. apply (b_ran s B). }
+  unfold worker_cs. destruct (exit_ s') eqn:EX.
+  - cbn [fst]. apply GEN; auto; try discriminate.
+    left. rewrite Eq. apply (b_exit s B). congruence.
+  - destruct (queue s') as [|c0 r] eqn:QQ.
+    + cbn [fst]. apply GEN; auto; discriminate.
+    + unfold run_job. replace (clos (with_queue s' r)) with (clos s') by reflexivity.
+      destruct (nth_error (clos s') c0) as [x|] eqn:E.
+      * cbn [fst].
+        apply (GEN (job_pc (cb x)) (with_clos (with_queue s' r) (set_nth (clos s') c0
+                 (mkClo (clbl x) (ck x) (cb x) (S (cran x)) w (cdrop x) (ccanc x))))); auto.
+        -- destruct (cb x); reflexivity.
+        -- destruct (cb x); discriminate.
+        -- intros c. unfold G. unfold with_clos. cbn [clos].
+           assert (L : c0 < length (clos s')) by (apply nth_error_Some; congruence).
+           destruct (Nat.eqb_spec c0 c) as [Q|Q].
+           ++ subst c. rewrite nth_error_set_nth_same by exact L. cbn [cran cran_on]. intros _. exact WN.
+           ++ rewrite nth_error_set_nth_other by exact Q. exact (RAN c).
+      * cbn [fst]. apply (GEN WIdle (with_queue s' r)); auto; discriminate.
+Qed.
+
+Theorem invb_step s i : InvB s -> enabled s i = true -> InvB (step s i).
+Proof.
+  intros B EN. unfold step, tstep. unfold enabled in EN.
+  destruct (nth_error (thrs s) i) as [p|] eqn:H; [|discriminate].
+  assert (SAME : forall p', is_client p' = is_client p -> (i = 0 -> p' <> CDone) ->
+                  (forall l q a, p' = Join l q a -> exit_ s = true) -> InvB (with_thr s i p')).
+  { intros p' E N J. apply (invb_frame s _ i p' p B H); unfold with_thr; cbn [queue exit_ threads tokens destroyed nclients thrs]; auto.
+    - apply (b_exit s B). - apply (b_destr s B). - intros E0 Q. exfalso. apply (N E0 Q). - apply (b_ran s B). }
+  destruct p as [prog| | | | | |l k| | |l q a].
+  - destruct prog as [|[l k b|] r].
+    + cbn [fst]. apply SAME; [apply next_client_client|intros ->; apply next_client_notdone0|].
+      intros l q a Q. unfold next_client in Q. destruct (Nat.eqb i 0); discriminate.
+    + pose proof (invb_enqueue s i l k b (next_client i r) _ B H) as E.
+      destruct (enqueue s i l k b) as [s1 e]. cbn [fst] in *.
+      apply E; [apply next_client_client|intros ->; apply next_client_notdone0|].
+      intros l0 q0 a0 Q. unfold next_client in Q. destruct r; [destruct (Nat.eqb i 0)|]; discriminate.
+    + pose proof (invb_stop_mark s i (AClient r) _ B H) as E.
+      destruct (stop_mark s i (AClient r)) as [s1 e]. cbn [fst] in *. apply E; auto.
+  - cbn [fst]. apply SAME; [reflexivity|discriminate|discriminate].
+  - pose proof (invb_stop_mark s i ADtor _ B H) as E.
+    destruct (stop_mark s i ADtor) as [s1 e]. cbn [fst] in *. apply E; auto.
+  - discriminate.
+  - pose proof (invb_worker_cs s s i WIdle B H) as E.
+    destruct (worker_cs s i) as [s1 e]. cbn [fst] in *. apply E; reflexivity.
+  - pose proof (invb_worker_cs s (with_tokens s (pred (tokens s))) i WSleep B H) as E.
+    destruct (worker_cs (with_tokens s (pred (tokens s))) i) as [s1 e]. cbn [fst] in *. apply E; reflexivity.
+  - pose proof (invb_enqueue s i l k BNone WIdle _ B H) as E.
+    destruct (enqueue s i l k BNone) as [s1 e]. cbn [fst] in *. apply E; [reflexivity|discriminate|discriminate].
+  - pose proof (invb_stop_mark s i (AWorker false) _ B H) as E.
+    destruct (stop_mark s i (AWorker false)) as [s1 e]. cbn [fst] in *. apply E; auto.
+  - discriminate.
+  - assert (EXT : exit_ s = true) by (eapply (b_join s B); exact H).
+    assert (SE : InvB (fst (stop_end s i q a))).
+    { pose proof (stop_end_shell s i q a _ eq_refl) as (hq & he & ht & hk & hd & hn & hth & hb & hr & ho).
+      apply (invb_frame s _ i (pc_after i a) _ B H).
+      - exact hth.
+      - exact hn.
+      - destruct a as [r| |[|]]; cbn [pc_after is_client]; auto. apply next_client_client.
+      - rewrite hq, ht. intros _. destruct (b_exit s B EXT) as [X1 X2]. rewrite X1, X2. destruct a; auto.
+      - rewrite he. auto.
+      - intros -> Q. rewrite hd. destruct a as [r| |[|]]; cbn [pc_after] in Q; try discriminate; auto.
+        exfalso. eapply next_client_notdone0, Q.
+      - rewrite hd. destruct a; auto.
+      - intros c. rewrite hr, ho. apply (b_ran s B).
+      - rewrite he. auto.
+      - intros. rewrite he. exact EXT. }
+    destruct l as [|w0 [|w1 l]].
+    + destruct (stop_end s i q a) as [s1 e]. exact SE.
+    + destruct (stop_end s i q a) as [s1 e]. exact SE.
+    + cbn [fst]. apply SAME; [reflexivity|discriminate|]. intros; exact EXT.
+Qed.
+
+Lemma init_thrs_shape ops : exists m cl n, 0 < m /\ length cl = m /\ nclients (init ops) = m /\
+  thrs (init ops) = cl ++ repeat WIdle n /\
+  (forall i p, nth_error cl i = Some p -> exists r, p = next_client i r).
+Proof.
+  unfold init. set (d := decode ops). set (m := Nat.min (S (dmax d)) 3).
+  exists m, (map (fun ip => next_client (fst ip) (snd ip)) (combine (seq 0 m) (firstn m [dp0 d; dp1 d; dp2 d]))), (dn d).
+  assert (M : 0 < m <= 3) by (unfold m; lia).
+  repeat split; try reflexivity; try lia.
+  - rewrite map_length, combine_length, seq_length, firstn_length. cbn [length]. lia.
+  - intros i p H. rewrite nth_error_map in H.
+    destruct (nth_error (combine (seq 0 m) (firstn m [dp0 d; dp1 d; dp2 d])) i) as [[j r]|] eqn:E; [|discriminate].
+    cbn [option_map fst snd] in H. inversion H; subst.
+    exists r. f_equal.
+    assert (X : nth_error (seq 0 m) i = Some j).
+    { revert E. generalize (firstn m [dp0 d; dp1 d; dp2 d]) as l2. generalize (seq 0 m) as l1. clear.
+      induction i as [|i IH]; intros [|a l1] [|b l2] E; cbn in E; try discriminate.
+      - inversion E; reflexivity.
+      - cbn. eapply IH, E. }
+    assert (L : i < length (seq 0 m)) by (apply nth_error_Some; congruence).
+    rewrite (nth_error_nth' (seq 0 m) 0 L) in X. rewrite seq_length in L. rewrite seq_nth in X by exact L.
+    inversion X. reflexivity.
+Qed.
+
+Lemma invb_init ops : InvB (init ops).
+Proof.
+  destruct (init_thrs_shape ops) as (m & cl & n & M & LC & NC & TH & SH).
+  assert (CLS : forall i p, T (init ops) i = Some p ->
+            (i < m /\ exists r, p = next_client i r) \/ (m <= i /\ p = WIdle)).
+  { intros i p H. unfold T in H. rewrite TH in H. destruct (Nat.ltb_spec i m) as [L|L].
+    - left. split; [exact L|]. rewrite nth_error_app1 in H by lia. eapply SH, H.
+    - right. split; [exact L|]. rewrite nth_error_app2 in H by lia. apply nth_error_In, repeat_spec in H. exact H. }
+  constructor.
+  - unfold init. cbn [exit_]. discriminate.
+  - unfold init. cbn [destroyed]. discriminate.
+  - rewrite NC, TH, app_length, LC. lia.
+  - intros i p H. rewrite NC. destruct (CLS i p H) as [(L & r & ->)|(L & ->)].
+    + rewrite next_client_client. tauto.
+    + cbn [is_client]. split; [discriminate|lia].
+  - intros H. destruct (CLS 0 _ H) as [(L & r & E)|(L & E)]; [|discriminate].
+    exfalso. eapply next_client_notdone0. symmetry. exact E.
+  - intros c. unfold init, G. cbn [clos]. destruct c; cbn; lia.
+  - intros i l q a H. destruct (CLS i _ H) as [(L & r & E)|(L & E)]; [|discriminate].
+    unfold next_client in E. destruct r; [destruct (Nat.eqb i 0)|]; discriminate.
+Qed.
+
+Theorem invb_reachable ops s : reachable ops s -> InvB s.
+Proof. induction 1; [apply invb_init|apply invb_step; assumption]. Qed.
+
+(* ---------- the statements of C11 ---------- *)
+Definition terminal (s : st) : Prop := forall i p, T s i = Some p -> p = CDone \/ p = WExit.
+
+Lemma sumq_zero c l : (forall p, In p l -> qof c p = 0) -> sumq c l = 0.
+Proof.
+  induction l as [|p l IH]; intros F; [reflexivity|]. rewrite sumq_cons, IH, F; cbn; auto.
+  intros; apply F; right; auto.
+Qed.
+
+Lemma terminal_quiet ops s : reachable ops s -> terminal s ->
+  destroyed s = true /\ queue s = [] /\ forall c, sumq c (thrs s) = 0.
+Proof.
+  intros R Tm. pose proof (invb_reachable ops s R) as B.
+  assert (D : destroyed s = true).
+  { apply (b_done0 s B). pose proof (b_ncl s B) as [N1 N2].
+    destruct (nth_error (thrs s) 0) as [p|] eqn:E; [|apply nth_error_None in E; lia].
+    destruct (Tm 0 p E) as [->| ->]; [exact E|].
+    pose proof (b_class s B 0 WExit E) as [_ X]. specialize (X N1). discriminate. }
+  split; [exact D|]. split.
+  - apply (b_exit s B). apply (b_destr s B D).
+  - intros c. apply sumq_zero. intros p Hin. apply In_nth_error in Hin. destruct Hin as [i Hi].
+    destruct (Tm i p Hi) as [->| ->]; reflexivity.
+Qed.
+
+(* C11.1 every closure handed to the pool is in exactly one place: invoked once, destroyed un-run once,
+   waiting in the queue, or in the swapped-out list of one stop() in progress *)
+Theorem exactly_one_place ops s c x : reachable ops s -> nth_error (clos s) c = Some x ->
+  cran x + cdrop x + cnt c (queue s) + sumq c (thrs s) = 1.
+Proof.
+  intros R H. pose proof (a_tot s (inva_reachable ops s R) c) as E. unfold tot in E.
+  rewrite !(G_some _ _ _ _ _ H) in E.
+  assert (L : Nat.ltb c (length (clos s)) = true) by (apply Nat.ltb_lt, nth_error_Some; congruence).
+  rewrite L in E. exact E.
+Qed.
+
+Theorem at_most_one_outcome ops s c x : reachable ops s -> nth_error (clos s) c = Some x ->
+  cran x + cdrop x <= 1.
+Proof. intros R H. pose proof (exactly_one_place ops s c x R H). lia. Qed.
+
+Theorem exactly_one_outcome ops s c x : reachable ops s -> terminal s -> nth_error (clos s) c = Some x ->
+  cran x + cdrop x = 1.
+Proof.
+  intros R Tm H. pose proof (exactly_one_place ops s c x R H) as E.
+  destruct (terminal_quiet ops s R Tm) as (_ & Q & S0). rewrite Q, S0, cnt_nil in E. lia.
+Qed.
+
+(* C11.2 a closure is only ever invoked by a worker thread of the pool *)
+Theorem ran_on_worker ops s c x : reachable ops s -> nth_error (clos s) c = Some x -> 1 <= cran x ->
+  nclients s <= cran_on x < length (thrs s) /\
+  (forall p, T s (cran_on x) = Some p -> is_client p = false).
+Proof.
+  intros R H N. pose proof (invb_reachable ops s R) as B.
+  pose proof (b_ran s B c) as E. rewrite !(G_some _ _ _ _ _ H) in E. specialize (E N).
+  split; [exact E|]. intros p Hp. pose proof (b_class s B _ p Hp) as [X _].
+  destruct (is_client p); [specialize (X eq_refl); lia|reflexivity].
+Qed.
+
+(* C11.3 destroying an un-run closure of an owning kind delivers exactly one cancellation to its waiter;
+   a bare-handle closure delivers none *)
+Theorem cancel_observable ops s c x : reachable ops s -> nth_error (clos s) c = Some x ->
+  ccanc x = if owned (ck x) then cdrop x else 0.
+Proof.
+  intros R H. pose proof (a_canc s (inva_reachable ops s R) c) as E.
+  rewrite !(G_some _ _ _ _ _ H) in E. exact E.
+Qed.
+
+(* C11.4 at the end nobody is left hanging: the waiter of every owning closure was completed by a run on a
+   worker or by exactly one cancellation, never both *)
+Theorem no_forgotten_waiter ops s c x : reachable ops s -> terminal s -> nth_error (clos s) c = Some x ->
+  owned (ck x) = true -> cran x + ccanc x = 1.
+Proof.
+  intros R Tm H O. pose proof (exactly_one_outcome ops s c x R Tm H).
+  pose proof (cancel_observable ops s c x R H) as E. rewrite O in E. lia.
+Qed.
+
+(* C11.6 when the destructor has returned every worker has left worker() and everything was joined *)
+Theorem terminal_all_joined ops s : reachable ops s -> terminal s ->
+  destroyed s = true /\ exit_ s = true /\ queue s = [] /\ threads s = [] /\
+  forall i p, T s i = Some p -> nclients s <= i -> p = WExit.
+Proof.
+  intros R Tm. pose proof (invb_reachable ops s R) as B.
+  destruct (terminal_quiet ops s R Tm) as (D & Q & _).
+  pose proof (b_destr s B D) as X. destruct (b_exit s B X) as [_ Th].
+  repeat split; auto. intros i p H L. destruct (Tm i p H) as [->| ->]; [|reflexivity].
+  pose proof (b_class s B i CDone H) as [Y _]. specialize (Y eq_refl). lia.
+Qed.
